@@ -1,6 +1,7 @@
 package execsim
 
 import (
+	"bytes"
 	"crypto/sha256"
 	"encoding/base64"
 	"errors"
@@ -297,6 +298,15 @@ func C06(r *simkit.Run) {
 					what = "insert-byte " + n
 				} else {
 					p := lo + t.Draw("byte-pos", len(b)-lo)
+					// Sometimes the one inserted byte is a carriage return in front of a line feed (an
+					// editor or a checkout that rewrites line endings).
+					if k := bytes.IndexByte(b[p:], '\n'); k >= 0 && t.Chance("insert-carriage-return", 1, 5) {
+						p += k
+						b = append(b[:p], append([]byte{'\r'}, b[p:]...)...)
+						what = "insert-carriage-return " + n
+						dk.write(n, b)
+						break
+					}
 					switch t.Draw("byte-op", 3) {
 					case 0:
 						b[p] ^= 0x01
